@@ -97,6 +97,11 @@ pub fn rand_state(r: &mut Rng) -> St {
     s.iff1 = r.bool();
     s.iff2 = r.bool();
     s.seed = r.pick(&SEEDS);
+    // the diagnostic switches only observe (C17): any combination may be on in any state
+    if r.below(3) == 0 {
+        let m = r.below(16) as u8;
+        s.dbg = [m & 1 != 0, m & 2 != 0, m & 4 != 0, m & 8 != 0];
+    }
     s
 }
 
@@ -194,7 +199,10 @@ pub fn context_bytes(r: &mut Rng, s: &mut St, page: Page, op: u8) {
         _ => 2,
     };
     let _ = code;
-    let pool = [0x06u8, 0x46, 0x86, 0xBE, 0xFE, 0x36, 0xCB, 0xDD, 0xFD, 0xED, 0x76];
+    // (HL)-column opcodes, prefixes, and the instructions most often found next: RET, RETI/RETN tails, NOP, HALT,
+    // EI, DI, JP, CALL, RST, JR, DJNZ, PUSH/POP, EX/EXX
+    let pool = [0x06u8, 0x46, 0x86, 0xBE, 0xFE, 0x36, 0xCB, 0xDD, 0xFD, 0xED, 0x76, 0xC9, 0x4D, 0x45, 0x00, 0xFB, 0xF3, 0xC3,
+                0xCD, 0xFF, 0xC7, 0x18, 0x10, 0xF5, 0xF1, 0x08, 0xD9, 0xE9];
     for i in 0..4u16 {
         if r.below(2) == 0 {
             s.poke(pc.wrapping_add(oplen + i), &[pool[r.below(pool.len() as u64) as usize]]);
@@ -202,8 +210,41 @@ pub fn context_bytes(r: &mut Rng, s: &mut St, page: Page, op: u8) {
     }
 }
 
+/// opcodes a program most often has right after (or as operands of) an instruction
+pub const NEXT_OPS: [u8; 28] = [0xC9, 0x00, 0x76, 0xFB, 0xF3, 0xC3, 0xCD, 0xFF, 0xC7, 0x18, 0x10, 0xF5, 0xF1, 0x08, 0xD9, 0xE9,
+                                0xED, 0xCB, 0xDD, 0xFD, 0x4D, 0x45, 0x36, 0x06, 0x46, 0xBE, 0x3E, 0x20];
+
+/// Every byte after the opcode byte(s) - operands and whatever follows - is `nb`.
+pub fn followed_by(s: &mut St, page: Page, nb: u8) {
+    let pc = s.pc;
+    let oplen: u16 = match page {
+        Page::Base => 1,
+        Page::DDCB | Page::FDCB => 4,
+        _ => 2,
+    };
+    for i in 0..5u16 {
+        s.poke(pc.wrapping_add(oplen + i), &[nb]);
+    }
+    if matches!(page, Page::DDCB | Page::FDCB) {
+        s.poke(pc.wrapping_add(2), &[nb]);
+    }
+}
+
 /// A state about to execute row `op` of `page`, operands boundary-biased.
 pub fn state_for(r: &mut Rng, page: Page, op: u8) -> St {
+    let mut s = state_for0(r, page, op);
+    if r.below(6) == 0 {
+        // what follows a one- or two-byte instruction is usually another instruction, what precedes it an operand
+        let len_known_short = matches!(page, Page::CB) || (page == Page::ED && op & 0xC7 != 0x43)
+            || (page == Page::Base && !matches!(op >> 6, 0 | 3));
+        if len_known_short || r.below(3) == 0 {
+            context_bytes(r, &mut s, page, op);
+        }
+    }
+    s
+}
+
+fn state_for0(r: &mut Rng, page: Page, op: u8) -> St {
     let mut s = rand_state(r);
     if r.below(5) == 0 {
         relate_regs(r, &mut s);
